@@ -65,7 +65,7 @@ def build_harness():
 def build_daemon():
     target = os.path.join(OUT, "repo-target")
     env = dict(os.environ, CARGO_NET_OFFLINE="true", CARGO_TARGET_DIR=target)
-    r = subprocess.run(["cargo", "build", "--offline", "-q", "--bin", "quandaryd"], cwd="/repo", env=env,
+    r = subprocess.run(["cargo", "build", "--offline", "-q", "--bin", "quandaryd"], cwd=os.environ.get("VERIF_REPO", "/repo"), env=env,
                        capture_output=True, text=True)
     if r.returncode != 0:
         raise ToolError("cargo build of quandaryd failed:\n" + r.stderr[-4000:])
